@@ -614,6 +614,47 @@ def gen_upload(rng):
     return ["xchg " + req(b"POST", b"/upload", "SF", rheaders(rng, 2), "u", gspec(rng, n) if n else "-") + " " + plan(200, [], "b", gspec(rng, 2))]
 
 
+def gen_upload_again(rng):
+    """a multipart upload that goes out more than once (a redirection that keeps the method and the body, a request object
+    used again), one sent chunked; and handlers that ask for the chunked coding and then put() their body"""
+    import urllib.parse
+    out = []
+    n = rng.choice([0, 1, 20, 100, 16000, 16001, 40000])
+    body = gspec(rng, n) if n else "-"
+    base = "http://" + AUTHORITY.decode()
+    # through a redirection
+    code = rng.choice([301, 302, 307, 308])
+    target = rng.choice(REL_BASES)
+    rel = rng.choice([b"/new", b"new", b"../up?x=1", b"http://@/abs"])
+    loc = urllib.parse.urljoin(base + target.decode(), rel.replace(b"@", AUTHORITY).decode())[len(base):].encode()
+    out.append("xchg " + req(b"POST", target, "SF", rheaders(rng, 1), "u", body) + " " + plan(code, [], "R", hexs(loc), hexs(rel), gspec(rng, 2)))
+    # a request object used again
+    out.append("xchg " + req(b"POST", b"/upload", rng.choice("SD") + "F" + rng.choice("23"), rheaders(rng, 1), "u", body) + " " + plan(200, [], "b", gspec(rng, 2)))
+    # sent chunked
+    te = rng.choice([b"chunked", b"Chunked", b"identity, chunked"])
+    out.append("xchg " + req(b"POST", b"/upload", rng.choice("SD") + "F", [(b"Transfer-Encoding", te)] + rheaders(rng, 1), "u", body) + " " + plan(200, [], "b", gspec(rng, 2)))
+    out.append("xchg " + req(b"PUT", b"/f", "SF", [(b"Transfer-Encoding", te)], "f", body) + " " + plan(201, [], "n"))
+    return out
+
+
+def gen_chunked_put(rng):
+    """a handler that sets Transfer-Encoding: chunked and gives its body with put(): seen by the real client and by a raw peer"""
+    out = []
+    te = (rng.choice([b"Transfer-Encoding", b"transfer-encoding"]), rng.choice([b"chunked", b"CHUNKED", b"identity, chunked"]))
+    m = rng.choice([0, 1, 5, 700, 127999, 128000, 128001, 200000])
+    code = rng.choice([200, 201, 404])
+    kinds = [("b", [gspec(rng, m)]), ("t", [gspec(rng, min(m, 5000), 2)]), ("n", []), ("f", [gspec(rng, min(m, 50000)), hexs(rng.choice(EXTS))])]
+    for pk, args in rng.sample(kinds, 3):
+        out.append("xchg " + req(b"GET", b"/te", "SF", rheaders(rng, 1), "n") + " " + plan(code, [te] + rheaders(rng, 1), pk, *args))
+    out.append("xchg " + req(b"GET", b"/file", "SF", [(b"Range", b"bytes=3-9")], "n") + " " + plan(200, [te], "f", gspec(rng, 20), hexs(b"txt")))
+    # the bytes on the wire, and the next exchange on the same connection
+    h1 = b"GET /a HTTP/1.1\r\nHost: example.test\r\n\r\n"
+    h2 = b"GET /b HTTP/1.1\r\nHost: example.test\r\n\r\n"
+    out.append("raw %s 2 %s - cl - %s %s - cl - %s" % (rng.choice("sp"), hexs(h1), plan(200, [te], "b", gspec(rng, min(m, 3000))),
+                                                     hexs(h2), plan(200, [], "t", gspec(rng, 4, 2))))
+    return out
+
+
 def gen_expect(rng):
     """Expect: 100-continue: the server's interim answer must not be taken for the response"""
     out = []
@@ -732,6 +773,10 @@ def gen(rng, tier):
         cases.append(gen_redirect(rng))
     for _ in range(3 if quick else 60):
         cases.append(gen_redirect_rel(rng))
+    for _ in range(3 if quick else 60):
+        # one op per case: a failing op must not hide behind another one of its batch when the case is shrunk
+        cases += [[l] for l in gen_upload_again(rng)]
+        cases += [[l] for l in gen_chunked_put(rng)]
     cases += gen_long_lines(rng)
     for _ in range(4 if quick else 40):
         cases.append(gen_upload(rng))
@@ -889,6 +934,8 @@ LEVEL_TEXT = ("Proved in Lean 4 about the executable model AslModel.HttpFrame (t
               "dictionary; continue_skipped — a response after the interim 100 Continue is read as if alone; empty_header_kept — a header "
               "that travels with an empty value is stored (present, empty) by the reader; chunked_request_roundtrip — a client asked "
               "to send chunked sends no length, chunks of the send block and the last chunk, and the server reads exactly its body; "
+              "chunked_put_roundtrip — a handler that asks for the chunked coding and put()s its body: no Content-Length goes out, the "
+              "body goes in chunks and the library ends it with the last chunk, the client returns exactly code, dictionary and body; "
               "suffix_range_spec — Range: bytes=-k is the last k bytes; redirect_target_rfc3986 / redirect_target_absolute — the URL "
               "the client goes to for a redirection is the Location itself when it has a scheme and else its resolution against the "
               "request URL, equal to RFC 3986 on all 42 examples of its section 5.4 (kernel-evaluated); "
@@ -924,9 +971,14 @@ LEVEL_NOTE = ("Trusted: Lean kernel; the regex translator of the two block-size 
               "model, serveStep): chunk-size lines of 9 digits are generated (framing flag q) and compared; Content-Length with a sign, "
               "other characters or more than 10 digits and chunk-size lines with a sign are not generated here (C09 does). Hypotheses of the theorems: as stated above; user headers name neither Content-Length nor "
               "Transfer-Encoding; sizes below 2^31 (int). Deviation of asl recorded, not a defect of this property as worded: truncated "
-              "requests are dropped. Known findings: range-end-zero, chunked-stream-not-terminated. Seventeen defects of this property were "
-              "repaired (fixed: lines); twelve of them were found by audits / defect hunts, not by this check, and the check was "
-              "extended until it catches each on the pre-fix tree with a concrete replay (third hunt: Range positions of 19+ digits "
+              "requests are dropped. Known findings: range-end-zero, chunked-stream-not-terminated. Twenty defects of this property were "
+              "repaired (fixed: lines); fifteen of them were found by audits / defect hunts, not by this check, and the check was "
+              "extended until it catches each on the pre-fix tree with a concrete replay (fourth hunt: a multipart upload sent a "
+              "second time went out raw — uploads now go through redirections (kind R) and reused request objects, the envelope oracle "
+              "U1 judges every send and the reference expects U1; Transfer-Encoding: chunked next to a Content-Length from put()/putFile() "
+              "and a chunked whole message never ended — chunked uploads, handlers that set the coding and put() a body / a file, "
+              "seen by the real client and byte for byte by raw peers with a second exchange on the connection; sendHeaders / the end of "
+              "a whole message are in the model as sentHeaders / endOf; third hunt: Range positions of 19+ digits "
               "wrapped modulo 2^64 — such positions generated; a redirection with a relative Location or none gave code 0 — new plan "
               "kind R sends the Location text verbatim, judged by python's urljoin; a last position past the end of the file was answered "
               "416 — the reference now cuts it to the end as RFC 7233 says, every such range on small files generated; second hunt: a Dic given to the request "
@@ -1025,9 +1077,11 @@ def _ref_redirect_rel(method, target, flags, rh, rk, rbody, code0, ph, pargs):
 def _ref_xchg(t):
     import urllib.parse
     method, target, flags, rh, rk, rbody, code0, ph, pk, pargs = _parse_xchg(t)
-    if pk == "R" and rk not in ("j", "u") and method != b"OPTIONS":
+    if pk == "R" and rk != "j" and method != b"OPTIONS":
         return _ref_redirect_rel(method, target, flags, rh, rk, rbody, code0, ph, pargs)
-    if rk in ("j", "u") or pk in ("j", "r", "S") or method == b"OPTIONS":
+    if rk == "j" or pk in ("j", "r", "S") or method == b"OPTIONS":
+        return None
+    if rk == "u" and any(cap(n) == b"Content-Type" for n, _ in rh):
         return None
     if flags[1] == "F" and code0 in (301, 302, 307, 308) and any(cap(n) == b"Location" and v for n, v in ph):
         return None                      # followed (kind R has its own reference); without Location it is the response (9644a87)
@@ -1060,7 +1114,16 @@ def _ref_xchg(t):
             hs.pop(b"Content-Length", None)          # a chunked request carries no length
         elif rk != "n":
             hs[b"Content-Length"] = b"%d" % len(rbody)
-        h = "H %s %s %s %s %s %s" % (hexs(method), hexs(path), hexs(qs), _dic_str("Q", q), _dic_str("N", hs), digest(rbody))
+        seen_body = digest(rbody)
+        if rk == "u":
+            # Http::upload's form: the file in a multipart/form-data envelope with a random boundary, EVERY time the request
+            # goes out (also through a redirection, also from a request object used again); the harness judges the envelope
+            # against the file (mark U1) and shows the boundary and the length as *
+            hs[b"Content-Type"] = b"multipart/form-data; boundary=*"
+            if b"Content-Length" in hs:
+                hs[b"Content-Length"] = b"*"
+            seen_body = "U1"
+        h = "H %s %s %s %s %s %s" % (hexs(method), hexs(path), hexs(qs), _dic_str("Q", q), _dic_str("N", hs), seen_body)
         # ---- what the client must see
         cs = {}
         for n, v in ph:
@@ -1116,6 +1179,8 @@ def _ref_xchg(t):
                         cs[b"Content-Length"] = b"0"
         else:
             return None
+        if _te_chunked(cs.get(b"Transfer-Encoding")):
+            cs.pop(b"Content-Length", None)      # the handler asked for the chunked coding: the chunks alone frame the body
         c = "C %d %s %s %s E-" % (code, hexs(b"HTTP/1.1"), _dic_str("N", cs), digest(body))
         return h + " | " + c
 
